@@ -13,27 +13,32 @@ def f1_f2(chk, repo):
     chk.rule("F1", "per surface the coupled group closes the cycle structure -> deformed mesh -> aerodynamic states -> load transfer -> structure, and nothing downstream of the coupled group is connected back into it", min_decided=8)
     chk.rule("F2", "every cyclic group has an iterative nonlinear solver with err_on_non_converge=True and an absolute tolerance, and a capable linear solver", min_decided=8)
     cyclic_found = 0
+    need = {"struct": {"CoupledAS"}, "aero": {"VLMStates", "CompressibleVLMStates"}, "loads": {"LoadTransfer"}}
     for gm in all_group_models(repo, chk):
         g = gm.cls
         for gr in gm.runs:
             for owner in gr.owners():
                 nodes, edges = group_graph(gr, owner)
                 cyc = has_cycle(nodes, edges)
-                if not cyc:
+                subs = {s.name: s for s in gr.subs_of(owner)}
+                kinds = {k: any(s.cls_name in v for s in subs.values()) for k, v in need.items()}
+                is_coupled = all(kinds.values())
+                if not cyc and not is_coupled:
                     continue
                 cyclic_found += 1
                 key = "%s[%s] %s" % (g.name, owner, sig_txt(gr.sigma))
-                subs = {s.name: s for s in gr.subs_of(owner)}
+                if not cyc:
+                    chk.violation("F1", key + ": cycle", g.where, "the group holds the structural, aerodynamic and load-transfer subsystems but their connections do not close a cycle: loads and displacements are not mutually consistent")
+                    cyc = []
                 cyc_nodes = set(cyc)
                 classes = {}
                 for n in cyc_nodes:
                     s = subs.get(n)
                     classes[n] = s.cls_name if s else "?"
-                need = {"struct": {"CoupledAS"}, "aero": {"VLMStates", "CompressibleVLMStates"}, "loads": {"LoadTransfer"}}
                 have = {k: any(c in v for c in classes.values()) for k, v in need.items()}
-                if all(have.values()):
+                if cyc and all(have.values()):
                     chk.ok("F1", key + ": cycle", g.where, "cycle %s with classes %s" % ("->".join(cyc), sorted(set(classes.values()))))
-                else:
+                elif cyc:
                     chk.violation("F1", key + ": cycle", g.where, "the coupling cycle %s (classes %s) lacks %s" % ("->".join(cyc), sorted(set(classes.values())), [k for k, v in have.items() if not v]))
                 # all three per-surface edges present
                 es = {(a, b) for a, b in edges}
